@@ -17,7 +17,16 @@ from . import common, gitflow as GF
 SRC = 'feature/x'
 DSTS = ['development/4.3', 'development/5.1']
 W = 'w/5.1/feature/x'
+DSTS3 = ['development/4.3', 'development/5.1', 'development/10.0']
+W3 = 'w/10.0/feature/x'
 FOREIGN = ['w/5.1/feature/other', 'q/5.1', 'feature/other']
+
+
+def layout(three):
+    """(destinations, [(integration branch, its destination)])"""
+    if three:
+        return DSTS3, [(W, DSTS3[1]), (W3, DSTS3[2])]
+    return DSTS, [(W, DSTS[1])]
 
 
 def run_reset(repo, force, host):
@@ -49,19 +58,19 @@ class PRHost:
 
             def decline(self):
                 host.declined.append(self.id)
-        self.prs = [P(11, W), P(12, FOREIGN[0]), P(13, SRC)]
+        self.prs = [P(11, W), P(12, FOREIGN[0]), P(13, SRC), P(14, W3)]
 
     def get_pull_requests(self, src_branch=None, **kw):
         return [p for p in self.prs if p.src_branch in src_branch]
 
 
-def lossy_formula(repo, pre, count_merges):
+def lossy_formula(repo, pre, count_merges, wname=W, dname=DSTS[1]):
     """The statement: manual work = a commit of the integration branch that is not
     the robot's, not part of the source branch (current or previous version) and
     was made on top of the integration branch itself."""
     N = repo.N
-    Wr = repo.rset(pre[W])
-    D = repo.rset(pre[DSTS[1]])
+    Wr = repo.rset(pre[wname])
+    D = repo.rset(pre[dname])
     S = repo.rset(pre[SRC])
     ins = lambda bv, j: z3.Extract(j, j, bv) == 1                      # noqa
     merge = lambda j: repo.p2[j] >= 0                                   # noqa
@@ -87,9 +96,10 @@ def lossy_formula(repo, pre, count_merges):
     return z3.Or(*cands)
 
 
-def make_harness(N, force, with_w=True, twin=False, count_merges=True):
+def make_harness(N, force, with_w=True, twin=False, count_merges=True, three=False):
     def h(ctx):
-        refs = DSTS + [SRC] + ([W] if with_w else []) + FOREIGN
+        dsts, wl = layout(three)
+        refs = dsts + [SRC] + ([w for w, _ in wl] if with_w else []) + FOREIGN
         repo = DagRepo(ctx, refs, N)
         host = PRHost()
         pre = dict(repo.tip)
@@ -98,7 +108,7 @@ def make_harness(N, force, with_w=True, twin=False, count_merges=True):
         deleted = sorted(r for (k, r) in repo.remote_ops if k == 'delete')
         updated = sorted(r for (k, r) in repo.remote_ops if k == 'update')
         if with_w:
-            lossy = lossy_formula(repo, pre, count_merges)
+            lossy = z3.Or(*[lossy_formula(repo, pre, count_merges, w, d) for w, d in wl])
             if force:
                 conds.append(('force_reset did not complete', z3.BoolVal(out == 'complete')))
             else:
@@ -111,9 +121,9 @@ def make_harness(N, force, with_w=True, twin=False, count_merges=True):
                               z3.BoolVal(not repo.remote_ops and not host.declined)))
             if out == 'complete':
                 conds.append(('reset deletes exactly the integration branches of this pull request',
-                              z3.BoolVal(deleted == [W] and not updated)))
+                              z3.BoolVal(deleted == sorted(w for w, _ in wl) and not updated)))
                 conds.append(('reset declines exactly its integration pull requests',
-                              z3.BoolVal(host.declined == [11])))
+                              z3.BoolVal(sorted(host.declined) == ([11, 14] if three else [11]))))
         else:
             conds.append(('reset without integration branches', z3.BoolVal(
                 out == 'complete' and not repo.remote_ops and not host.declined)))
@@ -128,9 +138,10 @@ def make_harness(N, force, with_w=True, twin=False, count_merges=True):
             if r == 'sat':
                 return dict(out=out, bad=repo.concretize(m), label=label, deleted=deleted)
         wit = None
-        r2, m2 = ctx.sat_model()
-        if r2 == 'sat':
-            wit = repo.concretize(m2)
+        if not three:
+            r2, m2 = ctx.sat_model()
+            if r2 == 'sat':
+                wit = repo.concretize(m2)
         return dict(out=out, bad=None, label=None, wit=wit, deleted=deleted)
     return h
 
@@ -187,18 +198,23 @@ def concrete_expected(world, count_merges=True):
     reach = {}
     for i in range(N):
         reach[i] = {i}.union(*[reach[p] for p in par[i]]) if par[i] else {i}
-    Wr, D, S = reach[world['refs'][W]], reach[world['refs'][DSTS[1]]], reach[world['refs'][SRC]]
-    F = set(S - D)
-    changed = True
-    while changed:
-        changed = False
-        for j in sorted(Wr - D):
-            if j in F or world['robot'][j] or len(par[j]) != 1:
-                continue
-            if par[j][0] in F or par[j][0] in D:
-                F.add(j)
-                changed = True
-    return any((not world['robot'][j]) and j not in F for j in Wr - D)
+    res = False
+    for wname, dname in ((W, DSTS3[1]), (W3, DSTS3[2])):
+        if wname not in world['refs']:
+            continue
+        Wr, D, S = reach[world['refs'][wname]], reach[world['refs'][dname]], reach[world['refs'][SRC]]
+        F = set(S - D)
+        changed = True
+        while changed:
+            changed = False
+            for j in sorted(Wr - D):
+                if j in F or world['robot'][j] or len(par[j]) != 1:
+                    continue
+                if par[j][0] in F or par[j][0] in D:
+                    F.add(j)
+                    changed = True
+        res = res or any((not world['robot'][j]) and j not in F for j in Wr - D)
+    return res
 
 
 def real_reset(world, force):
@@ -239,10 +255,11 @@ def replay(data):
         return out != 'complete'
     if 'refusing reset touched' in label:
         return out == 'lossy' and (gone or declined)
+    ws = sorted(w for w in (W, W3) if w in world['refs'])
     if 'deletes exactly' in label:
-        return out == 'complete' and gone != [W]
+        return out == 'complete' and gone != ws
     if 'declines exactly' in label:
-        return out == 'complete' and declined != [11]
+        return out == 'complete' and sorted(declined) != ([11, 14] if W3 in world['refs'] else [11])
     return False
 
 
@@ -255,6 +272,8 @@ def shape(world):
     for i in range(N):
         reach[i] = {i}.union(*[reach[p] for p in par[i]]) if par[i] else {i}
     Wr, D, S = reach[world['refs'][W]], reach[world['refs'][DSTS[1]]], reach[world['refs'][SRC]]
+    if W3 in world['refs']:
+        return 'several integration branches'
     manual_merge = [j for j in Wr - D - S if len(par[j]) == 2 and not world['robot'][j]]
     src_merge = [j for j in (S - D) if len(par[j]) == 2]
     if manual_merge:
@@ -264,10 +283,6 @@ def shape(world):
     return 'single-parent commits only'
 
 
-def _run(cfg):
-    N, force, with_w = cfg
-    results, st = explore(make_harness(N, force, with_w), max_paths=3000000, max_depth=2000)
-    return cfg, results, st.as_dict()
 
 
 def check(rep):
@@ -284,28 +299,30 @@ def check(rep):
                               'includes_commit/remove/exists', 'lib.git.Commit.parents/author/__eq__/__hash__',
                               'git_utils.push', 'lib.git.Repository.push_all']
     N = 4 if rep.tier == 'quick' else 5
-    rep.bounds = dict(commits=N, integration_branches=1, foreign_refs=FOREIGN)
+    rep.bounds = dict(commits=N, integration_branches='1 (N commits) and 2 (3 commits; thorough 4)', foreign_refs=FOREIGN)
     rep.assumptions += ['git log lists children before parents (no clock skew)',
                         '"made on top of the integration branch itself" is read as: its parent is neither '
                         'a (previous) source-branch commit nor on the destination',
                         'a merge commit made by somebody other than the robot is manual work']
     rep.outside_claim += ['graphs with more than %d commits, several integration branches chained' % N,
                           'the next evaluation rebuilding the integration branches']
-    cfgs = [(N, False, True), (N, True, True), (3, False, False)]
+    cfgs = [(N, False, True, False), (N, True, True, False), (3, False, False, False)]
     if rep.tier == 'quick':
-        cfgs.append((3, False, True))
+        cfgs.append((3, False, True, False))
+    # two integration branches (three destinations)
+    cfgs.append((3 if rep.tier == 'quick' else 4, False, True, True))
     outs = []
     # split the big exploration over the pool
     for cfg in cfgs:
-        n, force, with_w = cfg
-        results, st = common.explore_parallel(make_harness(n, force, with_w), split_depth=8,
+        n, force, with_w, three = cfg
+        results, st = common.explore_parallel(make_harness(n, force, with_w, three=three), split_depth=8,
                                               max_paths=3000000, max_depth=2000)
         outs.append((cfg, results, st.as_dict()))
     seen = {}
     outcomes = set()
     for cfg, results, st in outs:
-        rep.add_stats(st, 'N=%d force=%s integration branch %s' % (cfg[0], cfg[1],
-                                                                     'present' if cfg[2] else 'absent'))
+        rep.add_stats(st, 'N=%d force=%s integration branch%s %s' % (
+            cfg[0], cfg[1], 'es (2)' if cfg[3] else '', 'present' if cfg[2] else 'absent'))
         wits = []
         for _, r in results:
             outcomes.add((cfg[1], r['out']))
